@@ -4,7 +4,8 @@ Model: lean/PV/Model/Canon.lean (SFTPServerInterface.canonicalize = posixpath.no
 absolute); theorems: lean/PV/Props/C34.lean; driver: lean/Driver/C34.lean.
 
 Correspondence: the real `SFTPServerInterface.canonicalize` vs the model on every string over {'/', '.', 'a'} of
-length <= 8 (9841 strings, exhaustive) plus random paths built from separators, '.', '..', names, dotted names,
+length <= 8 (9841 strings, exhaustive), every string over {'/', '.', 'c', ':', '\\'} of length <= 6 containing ':' or
+'\\' (drive-letter and foreign-separator look-alikes, exhaustive) plus random paths built from separators, '.', '..', names, dotted names,
 non-ASCII, NUL and backslashes; the depth walk of root + result for several roots; and a sample of the same paths
 through a real SFTP session (client.normalize -> CMD_REALPATH -> server.canonicalize -> CMD_NAME).
 Oracle (model-independent): result starts with '/', is '/' or '//' followed by components none of which is
@@ -37,7 +38,7 @@ def walk_depth(components):
 
 def gen_random(rng, n):
     atoms = ["/", "/", "/", "//", "///", ".", "..", "..", "...", "a", "b", "etc", "passwd", ".a", "a.", "..a", "a..",
-             "é", "日本", " ", "\x00", "\\", "~", "-", "a b", ". ", " .."]
+             "é", "日本", " ", "\x00", "\\", "~", "-", "a b", ". ", " ..", ":", "c:", "C:\\", "c:/", ":/", "a:b"]
     out = []
     for _ in range(n):
         k = rng.choice([1, 2, 3, 4, 6, 9, 14, rng.randrange(1, 40)])
@@ -101,6 +102,14 @@ def run(ctx):
     n_exh = len(paths)
     paths += ["..", "../..", "/..", "//..", "/../..", "a/../../..", "./../", "..//..//etc/passwd", "/./.", "//", "///",
               "////a", "a/b/../../../c", "\x00", "a\x00/../..", "..\\..\\a", "/" * 300 + "..", "../" * 200 + "x"]
+    # a second exhaustive family with ':' and '\\' (drive-letter / foreign-separator look-alikes stay RELATIVE names on
+    # POSIX): all strings over {'/', '.', 'c', ':', '\\'} of length <= 6
+    colon = ["".join(t) for n in range(1, 7) for t in itertools.product("/.c:\\", repeat=n)
+             if ":" in t or "\\" in t]
+    n_colon = len(colon)
+    paths += colon
+    paths += ["c:/x", "c:/..", "c:/../../secret.txt", "C:\\..", "C:\\..\\..", "c:\\../..", "::", "a:b", "a:/../..", ":/..",
+              "1:/../../etc/passwd", "c:", "c:/", "/c:/..", "cc:/../..", "é:/../.."]
     paths += gen_random(rng, 200000 if ctx.thorough else 5000)
 
     reqs, outs = [], []
@@ -119,7 +128,7 @@ def run(ctx):
             continue
         nontrivial = (".." in p) or ("." in p.split("/")) or ("//" in p) or not p.startswith("/")
         ctx.case(p, nontrivial)
-        ctx.dist("exhaustive" if i < n_exh else "random")
+        ctx.dist("exhaustive" if i < n_exh else "exhaustive-colon-backslash" if i < n_exh + n_colon else "random")
         if ".." in p.split("/"):
             ctx.dist("has-dotdot")
         if i % 2500 == 7:
